@@ -621,6 +621,7 @@ def app(c6, p):
 
 
 def sample_pixels(rng, ny, nx, k=4):
+    ny, nx = max(ny, 0), max(nx, 0)
     pts = [(F(0), F(0)), (F(nx), F(0)), (F(nx), F(ny)), (F(0), F(ny)), (F(nx, 2), F(ny, 2))]
     for _ in range(k):
         pts.append((F(rng.randint(-2, 2 * nx + 2), 2), F(rng.randint(-2, 2 * ny + 2), 2)))
@@ -902,6 +903,8 @@ def p_gcp(genc, M6, op, seed=0):
     msgs = []
     # (a) real Poly2d fit: composition only (the fit itself is the oracle)
     gp = mk_gcp(genc, M6, oracle="poly")
+    if op is not None and expected_contract(gp, op) is None:
+        return True, "outside the property's domain"
     g2 = apply_op(gp, op) if op is not None else gp
     Bq = Aq(g2)
     for p in sample_pixels(rng, int(g2.shape[0]), int(g2.shape[1]), 2):
@@ -1061,5 +1064,39 @@ def replay(rp) -> int:
 
 
 META = {
-    "text": "filled below",
+    "text": ("Coq theorems (coq/Props/C02.v, 40 statements, all closed under the global context) over a Gallina model of "
+             "GeoBox = (shape, affine over Q, opaque CRS tag): the affine group laws; pix2wld/wld2pix mutual inverses for every "
+             "invertible affine; the extent ring is the image of the pixel rectangle's corners and their convex hull is exactly "
+             "the image of the rectangle; the bounding box is the min/max over all four corner images, each side attained, and "
+             "contains the image of every point of the rectangle; coordinate labels are pixel centres; resolution is the pixel "
+             "step (axis aligned) / (|x-step|, signed area / |x-step|) for rotated grids with the square root as a universally "
+             "quantified variable; one contract theorem per view operation (indexing with int / negative / slice indices linked "
+             "to numpy selection through C17, pad, pad_wh, crop/expand, translate_pix, flipx/flipy, left/right/top/bottom, "
+             "GeoBox*Affine, Affine*GeoBox, rotate about the centre for any (c,s) and isometry when c^2+s^2=1, zoom_out, zoom_to "
+             "shape / number / resolution, scaled_down_geobox, buffered, center_pixel) of the form 'new pixel p lies at old "
+             "pixel g(p)', CRS unchanged, shape as documented; covering theorems for pad, pad_wh, zoom_out, zoom_to, "
+             "scaled_down_geobox, buffered, flips; GCP geoboxes with the polynomial fit as an oracle (contracts transfer, exact "
+             "agreement with the linear GeoBox when the fit is affine).  The model is tied to odc/geo/geobox.py, geom.py, math.py, "
+             "gcp.py by lock-step differential execution of random operation chains (exact comparison of shape, six affine "
+             "coefficients, CRS, extent ring, bounding box, coordinates, resolution, pix2wld, wld2pix evaluated by vm_compute) "
+             "and by the operations' contracts evaluated on the implementation in exact Fraction arithmetic."),
+    "note": ("Trusted: Coq kernel; the hand-written models coq/Base/Affine.v (third-party affine.Affine: product, inverse, "
+             "rotation about a pivot) and coq/Model/GeoBoxOps.v, validated by the correspondence run of this check, not verified "
+             "against the source text; the harness.  Floats are exact rationals: binary64 rounding is not modelled, the "
+             "correspondence only uses inputs (dyadic, |x|<2^16, <=8 fractional bits, Pythagorean rotations, power-of-two or exact "
+             "divisions) on which every float operation of the code is exact; the float constants 1e-10 (is_affine_st), 0.1 "
+             "(_round_to_res), 0.01 (from_bbox tol) enter as parameters with their exact binary64 values.  Oracles: the Poly2d "
+             "least-squares fits of GCPMapping (arbitrary function respecting point equality; round trip conditional on w2p "
+             "inverting p2w; exactness stated for an affine fit); numpy's Cholesky inside decompose_rws is modelled by its closed "
+             "form (sqrt(a^2+d^2), det/sqrt(a^2+d^2)), executable only when the root is rational (Err otherwise), the theorem "
+             "quantifies over any positive root.  Domain restrictions in the theorems: round trip needs det != 0; zoom factors > 0; "
+             "scaler > 1; pad/buffer covering needs non-negative amounts; the equality 'view height = number of rows numpy "
+             "selects' is for in-range, non-reversed slices (out-of-range stops are not clamped by GeoBox and reversed slices give "
+             "negative sizes: outside the property's domain, the location contract still holds); GeoBox.rotate takes degrees: the "
+             "theorem is for any (cos, sin) pair, the executable comparison for multiples of 90 degrees, other angles only through "
+             "the search predicate with an explicit rounding bound.  NOT modelled/proved: indexing by Geometry/BoundingBox/GeoBox "
+             "(shapely), GCPGeoBox.to_crs, fit error of non-affine control points (measured nowhere, oracle), zoom_to(resolution=) "
+             "of a GCPGeoBox, minimality of the pixel count of zoom_to(resolution=)."),
+    "technique": "Coq proof over hand-written Gallina model (affine algebra over Q) + lock-step differential correspondence (vm_compute) + exact-Fraction contract predicates on the implementation",
+    "design_ref": "DESIGN.md section 5, C02; section 3 (number model)",
 }
